@@ -502,7 +502,15 @@ func lateLoads(prog *ssa.Program) {
 					if !ok || ld.Op != token.MUL || ld.Block() != b {
 						continue
 					}
-					if _, isField := ld.X.(*ssa.FieldAddr); !isField {
+					fa, isField := ld.X.(*ssa.FieldAddr)
+					if !isField {
+						continue
+					}
+					// only within one expression: the field is named on the line of the call and in
+					// front of its opening parenthesis (a load that belongs to an earlier statement,
+					// e.g. 'b = c.cbb', keeps its place), and no assignment lies in between
+					lp, cp := prog.Fset.Position(fa.Pos()), prog.Fset.Position(common.Pos())
+					if !lp.IsValid() || !cp.IsValid() || lp.Filename != cp.Filename || lp.Line != cp.Line || lp.Offset >= cp.Offset {
 						continue
 					}
 					if refs := ld.Referrers(); refs == nil || len(*refs) != 1 {
@@ -517,13 +525,16 @@ func lateLoads(prog *ssa.Program) {
 					if li < 0 {
 						continue
 					}
-					between := false
+					between, stored := false, false
 					for k := li + 1; k < ci; k++ {
 						if _, isCall := b.Instrs[k].(ssa.CallInstruction); isCall {
 							between = true
 						}
+						if _, isStore := b.Instrs[k].(*ssa.Store); isStore {
+							stored = true
+						}
 					}
-					if !between {
+					if !between || stored {
 						continue
 					}
 					// move the load to just before the call
